@@ -68,7 +68,7 @@ func addNote(kind, example string) {
 	}
 }
 
-func (prop) Extra(_ *core.RNG, _ string, _ string) ([]string, []string, map[string]any) {
+func (prop) Extra(_ *core.RNG, tier string, _ string) ([]string, []string, map[string]any) {
 	noteMu.Lock()
 	defer noteMu.Unlock()
 	var ks []string
@@ -80,7 +80,8 @@ func (prop) Extra(_ *core.RNG, _ string, _ string) ([]string, []string, map[stri
 	for _, k := range ks {
 		notes = append(notes, fmt.Sprintf("outside the grammar of C11 (not a violation): %s — %d of %d such case(s), e.g. %s", k, noteCnt[k], noteSeen, noteEx[k]))
 	}
-	return nil, notes, map[string]any{"out_of_grammar_cases": noteSeen}
+	return nil, notes, map[string]any{"out_of_grammar_cases": noteSeen, "exhaustive": tier == "thorough",
+		"exhaustive_scope": "thorough: every type expression of depth <= 3 over 7 leaves and 9 constructors, 3 targets, both presentations"}
 }
 
 // ---- view of the real x/types object, exactly the accessors Dumper.TypeLit reads ----
